@@ -19,6 +19,7 @@ RULE = ("cases drawn by seeded sampling over operator kind {dense, mv, mv_rmv, a
         "method {None, exactsolve, custom_exactsolve, cg, bicgstab, gmres, broyden1} x emode {none, E, EM} x batch pattern x dtype x "
         "spectrum {spd, indef, nonherm (random singular vectors), nonherm_pd (positive-definite Hermitian part)} x n x ncols x tolerance setting x special right-hand sides; non-trivial = B != 0 and the "
         "solver evaluated >= 2 operator products (counted by the spy operator) or used the dense path with n >= 2")
+RULE += ("; operator kinds matmul_rb / add_rb carry the batch dimensions in the second operand only; group directed_f32_default: float32 with the library's default tolerances, cond <= 3, residual <= 4 x the stopping tolerance")
 MIN_NONTRIVIAL = {"quick": 600, "thorough": 8000}
 ASSUMPTIONS = ["cond(A - e_c M) <= 40 for every column and batch element (generator re-draws E otherwise)",
                "float32 cases request rtol=1e-4/atol=1e-5 (attainable in working precision), except the group directed_f32_default (cond <= 3, default tolerances, residual bound 4 x the stopping tolerance)", "broyden1 is not given 1e-11-scaled right-hand sides (float32 underflow in the quasi-Newton update) nor the 1e3-scaled eigenvector column (its absolute f_tol is then 1e-12 relative, where the rank-one updates stall at ~1e-10)",
